@@ -125,7 +125,7 @@ Proof.
 Qed.
 
 (* ------------------------------------------------------------------ setters and observers *)
-Ltac de e := destruct e as [en ek ec em ed eu et eky [[emn emx]|] ens edir erpc].
+Ltac de e := destruct e as [en ek ec em ed eu et eky [[[emn emx] [ehm ehx]]|] ens edir erpc].
 
 Definition shape (e : entry) :=
   (e_name e, e_kind e, e_key e, e_ns e, e_dir e, e_rpc e, match e_la e with Some _ => true | None => false end).
@@ -150,12 +150,12 @@ Lemma shape_set_mand : forall e c, shape (set_mand e c) = shape e. Proof. intros
 Lemma shape_set_dflt : forall e c, shape (set_dflt e c) = shape e. Proof. intros; de e; reflexivity. Qed.
 Lemma shape_set_units : forall e c, shape (set_units e c) = shape e. Proof. intros; de e; reflexivity. Qed.
 Lemma shape_set_ty : forall e c, shape (set_ty e c) = shape e. Proof. intros; de e; reflexivity. Qed.
-Lemma shape_with_min : forall e c, shape (with_min e c) = shape e. Proof. intros; de e; reflexivity. Qed.
-Lemma shape_with_max : forall e c, shape (with_max e c) = shape e. Proof. intros; de e; reflexivity. Qed.
+Lemma shape_with_min : forall e c w, shape (with_min e c w) = shape e. Proof. intros; de e; reflexivity. Qed.
+Lemma shape_with_max : forall e c w, shape (with_max e c w) = shape e. Proof. intros; de e; reflexivity. Qed.
 
-Lemma bounded_la : forall e, bounded e = true -> exists mn mx, e_la e = Some (mn, mx).
+Lemma bounded_la : forall e, bounded e = true -> exists mn mx hm hx, e_la e = Some (mn, mx, (hm, hx)).
 Proof.
-  intros e H. unfold bounded, isList, isLeafList in H. de e; cbn in *; eauto.
+  intros e H. unfold bounded, isList, isLeafList in H. de e; cbn in *; eauto 6.
   destruct edir; [|destruct ek]; discriminate.
 Qed.
 
@@ -177,17 +177,14 @@ Definition m_bounds (dv : deviate) (t : entry) (e1 : bool) : entry * bool :=
   let listy := isList t || isLeafList t in
   match dv_min dv with
   | Some _ => if negb listy then (t, true) else
-    let t := match e_la t with Some (_, mx) => set_la t (Some (semCheckMin (dv_min dv), mx)) | None => t end in
+    let t := with_min t (semCheckMin (dv_min dv)) true in
     match dv_max dv with
-    | Some mx => let t := match e_la t with Some (mn, _) => set_la t (Some (mn, mx)) | None => t end in
-      (m_ut dv t, e1)
+    | Some mx => (m_ut dv (with_max t mx true), e1)
     | None => (m_ut dv t, e1)
     end
   | None =>
     match dv_max dv with
-    | Some mx => if negb listy then (t, true) else
-      let t := match e_la t with Some (mn, _) => set_la t (Some (mn, mx)) | None => t end in
-      (m_ut dv t, e1)
+    | Some mx => if negb listy then (t, true) else (m_ut dv (with_max t mx true), e1)
     | None => (m_ut dv t, e1)
     end
   end.
@@ -213,25 +210,25 @@ Definition d_dflt (dv : deviate) (t : entry) : entry * bool :=
          | x :: _ => if str_eqb d x then (set_dflt t [], false) else (t, true)
          end
   end.
+(* the value differs, or the statement is not there *)
+Definition bad_min (t : entry) (v : N) : bool :=
+  match e_la t with Some (mn, _, (hm, _)) => negb (mn =? v) || negb hm | None => false end.
+Definition bad_max (t : entry) (v : N) : bool :=
+  match e_la t with Some (_, cur, (_, hx)) => negb (cur =? v) || negb hx | None => false end.
+
 Definition d_bounds (dv : deviate) (t : entry) (e1 : bool) : entry * bool :=
   let listy := isList t || isLeafList t in
   match dv_min dv with
   | Some _ => if negb listy then (t, true) else
-    let bad := match e_la t with Some (mn, _) => negb (mn =? semCheckMin (dv_min dv)) | None => false end in
-    let t := match e_la t with Some (_, mx) => set_la t (Some (0, mx)) | None => t end in
+    let bad := bad_min t (semCheckMin (dv_min dv)) in
+    let t := with_min t 0 false in
     match dv_max dv with
-    | Some mx =>
-      let bad2 := match e_la t with Some (_, cur) => negb (cur =? mx) | None => false end in
-      let t := match e_la t with Some (mn, _) => set_la t (Some (mn, MaxUint64)) | None => t end in
-      (t, e1 || bad || bad2)
+    | Some mx => (with_max t MaxUint64 false, e1 || bad || bad_max t mx)
     | None => (t, e1 || bad)
     end
   | None =>
     match dv_max dv with
-    | Some mx => if negb listy then (t, true) else
-      let bad2 := match e_la t with Some (_, cur) => negb (cur =? mx) | None => false end in
-      let t := match e_la t with Some (mn, _) => set_la t (Some (mn, MaxUint64)) | None => t end in
-      (t, e1 || bad2)
+    | Some mx => if negb listy then (t, true) else (with_max t MaxUint64 false, e1 || bad_max t mx)
     | None => (t, e1)
     end
   end.
@@ -251,8 +248,8 @@ Lemma dflt_set_mand : forall e c, e_dflt (set_mand e c) = e_dflt e. Proof. prj. 
 Lemma dflt_set_units : forall e c, e_dflt (set_units e c) = e_dflt e. Proof. prj. Qed.
 Lemma dflt_set_ty : forall e c, e_dflt (set_ty e c) = e_dflt e. Proof. prj. Qed.
 Lemma dflt_set_dflt : forall e c, e_dflt (set_dflt e c) = c. Proof. prj. Qed.
-Lemma dflt_with_min : forall e c, e_dflt (with_min e c) = e_dflt e. Proof. prj. Qed.
-Lemma dflt_with_max : forall e c, e_dflt (with_max e c) = e_dflt e. Proof. prj. Qed.
+Lemma dflt_with_min : forall e c w, e_dflt (with_min e c w) = e_dflt e. Proof. prj. Qed.
+Lemma dflt_with_max : forall e c w, e_dflt (with_max e c w) = e_dflt e. Proof. prj. Qed.
 Lemma la_set_cfg : forall e c, e_la (set_cfg e c) = e_la e. Proof. prj. Qed.
 Lemma la_set_mand : forall e c, e_la (set_mand e c) = e_la e. Proof. prj. Qed.
 Lemma la_set_units : forall e c, e_la (set_units e c) = e_la e. Proof. prj. Qed.
@@ -342,16 +339,13 @@ Proof. intros. unfold m_cfg. destruct (is_set _); rewrite ?shape_set_cfg; reflex
 Lemma shape_m_mand : forall dv t, shape (m_mand dv t) = shape t.
 Proof. intros. unfold m_mand. destruct (is_set _); rewrite ?shape_set_mand; reflexivity. Qed.
 
-Lemma with_min_la : forall e mn mx n, e_la e = Some (mn, mx) -> with_min e n = set_la e (Some (n, mx)).
-Proof. intros. unfold with_min. rewrite H. reflexivity. Qed.
-Lemma with_max_la : forall e mn mx n, e_la e = Some (mn, mx) -> with_max e n = set_la e (Some (mn, n)).
-Proof. intros. unfold with_max. rewrite H. reflexivity. Qed.
+Ltac shp := cbn [ts_node with_node ts_removed];
+  repeat first [rewrite shape_m_ut | rewrite shape_with_max | rewrite shape_with_min]; reflexivity.
 
-Lemma shape_set_la_some : forall e x y, e_la e = Some y -> shape (set_la e (Some x)) = shape e.
-Proof. intros e x y H. de e; cbn in *; [reflexivity|discriminate]. Qed.
-
-Ltac shp := cbn [ts_node with_node ts_removed ts_min ts_max];
-  repeat first [rewrite shape_m_ut | erewrite shape_set_la_some by (first [eassumption | apply la_set_la])]; reflexivity.
+Lemma bounded_with_min : forall e n w, bounded (with_min e n w) = bounded e.
+Proof. intros. apply shape_bounded, shape_with_min. Qed.
+Lemma bounded_with_max : forall e n w, bounded (with_max e n w) = bounded e.
+Proof. intros. apply shape_bounded, shape_with_max. Qed.
 
 Lemma set_bounds_stage : forall rep dv st e1,
   match spec_edits (kset rep) st (P_min dv ++ P_max dv ++ P_units dv ++ P_type dv) with
@@ -362,21 +356,14 @@ Proof.
   intros rep dv st e1. unfold m_bounds, P_min, P_max. fold (bounded (ts_node st)).
   destruct (dv_min dv) as [n|]; destruct (dv_max dv) as [m|]; cbn [app spec_edits semCheckMin].
   - rewrite kset_edit. cbn [spec_set]. destruct (bounded (ts_node st)) eqn:B; cbn [negb]; [|reflexivity].
-    destruct (bounded_la _ B) as (mn & mx & L). rewrite L.
-    rewrite kset_edit. cbn [spec_set ts_node]. rewrite (with_min_la _ _ _ _ L).
-    assert (B2 : bounded (set_la (ts_node st) (Some (n, mx))) = true).
-    { rewrite <- B. apply shape_bounded. rewrite <- (with_min_la _ _ _ _ L). apply shape_with_min. }
-    rewrite B2. rewrite la_set_la.
+    rewrite kset_edit. cbn [spec_set ts_node with_node]. rewrite bounded_with_min, B.
     rewrite set_ut_stage. cbn [ts_node with_node].
-    erewrite with_max_la by apply la_set_la.
     split; [reflexivity|]. split; [reflexivity|]. shp.
   - rewrite kset_edit. cbn [spec_set]. destruct (bounded (ts_node st)) eqn:B; cbn [negb]; [|reflexivity].
-    destruct (bounded_la _ B) as (mn & mx & L). rewrite L.
-    rewrite set_ut_stage. cbn [ts_node with_node]. rewrite (with_min_la _ _ _ _ L).
+    rewrite set_ut_stage. cbn [ts_node with_node].
     split; [reflexivity|]. split; [reflexivity|]. shp.
   - rewrite kset_edit. cbn [spec_set]. destruct (bounded (ts_node st)) eqn:B; cbn [negb]; [|reflexivity].
-    destruct (bounded_la _ B) as (mn & mx & L). rewrite L.
-    rewrite set_ut_stage. cbn [ts_node with_node]. rewrite (with_max_la _ _ _ _ L).
+    rewrite set_ut_stage. cbn [ts_node with_node].
     split; [reflexivity|]. split; [reflexivity|]. shp.
   - rewrite set_ut_stage. cbn [ts_node with_node].
     split; [reflexivity|]. split; [reflexivity|]. shp.
@@ -469,49 +456,52 @@ Proof.
   destruct (str_eqb _ _); [apply la_set_dflt|reflexivity].
 Qed.
 
+Lemma bad_min_spec : forall t v, bounded t = true -> bad_min t v = negb (min_written t && (min_of t =? v)).
+Proof.
+  intros t v B. destruct (bounded_la _ B) as (mn & mx & hm & hx & L). unfold bad_min, min_written, min_of. rewrite L.
+  destruct (mn =? v), hm; reflexivity.
+Qed.
+Lemma bad_max_spec : forall t v, bounded t = true -> bad_max t v = negb (max_written t && (max_of t =? v)).
+Proof.
+  intros t v B. destruct (bounded_la _ B) as (mn & mx & hm & hx & L). unfold bad_max, max_written, max_of. rewrite L.
+  destruct (mx =? v), hx; reflexivity.
+Qed.
+Lemma max_after_min : forall t n w v, bad_max (with_min t n w) v = bad_max t v /\
+  max_written (with_min t n w) = max_written t /\ max_of (with_min t n w) = max_of t.
+Proof. intros. de t; cbn; auto. Qed.
+
 Lemma del_bounds_stage : forall dv st e1,
   dv_units dv = None -> dv_type dv = None ->
-  (forall n, dv_min dv = Some n -> bounded (ts_node st) = true -> negb (ts_min st) && (min_of (ts_node st) =? n) = false) ->
-  (forall n, dv_max dv = Some n -> bounded (ts_node st) = true -> negb (ts_max st) && (max_of (ts_node st) =? n) = false) ->
   match spec_edits DKDelete st (P_min dv ++ P_max dv ++ P_units dv ++ P_type dv) with
   | Some st' => d_bounds dv (ts_node st) e1 = (ts_node st', e1) /\ step_rel st st'
   | None => snd (d_bounds dv (ts_node st) e1) = true
   end.
 Proof.
-  intros dv st e1 HU HT Hmin Hmax. unfold d_bounds, P_min, P_max, P_units, P_type. rewrite HU, HT.
+  intros dv st e1 HU HT. unfold d_bounds, P_min, P_max, P_units, P_type. rewrite HU, HT.
   fold (bounded (ts_node st)). rewrite !app_nil_r.
   destruct (dv_min dv) as [n|]; destruct (dv_max dv) as [m|]; cbn [app spec_edits semCheckMin spec_edit spec_unset].
   - destruct (bounded (ts_node st)) eqn:B; cbn [negb andb]; [|reflexivity].
-    destruct (bounded_la _ B) as (mn & mx & L). rewrite L.
-    specialize (Hmin n eq_refl eq_refl). specialize (Hmax m eq_refl eq_refl).
-    unfold min_of in *. unfold max_of in Hmax. rewrite L in *.
-    destruct (mn =? n) eqn:E1.
-    2:{ cbn. rewrite andb_false_r. cbn. rewrite orb_true_r. reflexivity. }
-    destruct (ts_min st); [|discriminate]. cbn [andb ts_node ts_max].
-    rewrite (with_min_la _ _ _ _ L).
-    assert (B2 : bounded (set_la (ts_node st) (Some (0, mx))) = true).
-    { rewrite <- B. apply shape_bounded. eapply shape_set_la_some. eassumption. }
-    rewrite B2. unfold max_of. rewrite la_set_la.
-    destruct (mx =? m) eqn:E2.
-    2:{ rewrite andb_false_r. cbn. rewrite orb_true_r. reflexivity. }
-    destruct (ts_max st); [|discriminate]. cbn [andb negb orb].
-    erewrite with_max_la by apply la_set_la. rewrite !orb_false_r.
+    rewrite (bad_min_spec _ n B).
+    destruct (min_written (ts_node st) && (min_of (ts_node st) =? n)) eqn:E1; cbn [negb].
+    2:{ cbn. rewrite orb_true_r. reflexivity. }
+    cbn [andb ts_node with_node].
+    destruct (max_after_min (ts_node st) 0 false m) as (M1 & M2 & M3).
+    rewrite bounded_with_min, B, M1, M2, M3. cbn [andb].
+    rewrite (bad_max_spec _ m B).
+    destruct (max_written (ts_node st) && (max_of (ts_node st) =? m)) eqn:E2; cbn [negb].
+    2:{ cbn. rewrite orb_true_r. reflexivity. }
+    rewrite !orb_false_r. split; [reflexivity|]. split; [reflexivity|]. shp.
+  - destruct (bounded (ts_node st)) eqn:B; cbn [negb andb]; [|reflexivity].
+    rewrite (bad_min_spec _ n B).
+    destruct (min_written (ts_node st) && (min_of (ts_node st) =? n)) eqn:E1; cbn [negb].
+    2:{ cbn. rewrite orb_true_r. reflexivity. }
+    cbn [andb]. rewrite !orb_false_r.
     split; [reflexivity|]. split; [reflexivity|]. shp.
   - destruct (bounded (ts_node st)) eqn:B; cbn [negb andb]; [|reflexivity].
-    destruct (bounded_la _ B) as (mn & mx & L). rewrite L.
-    specialize (Hmin n eq_refl eq_refl). unfold min_of in *. rewrite L in *.
-    destruct (mn =? n) eqn:E1.
-    2:{ cbn. rewrite andb_false_r. cbn. rewrite orb_true_r. reflexivity. }
-    destruct (ts_min st); [|discriminate]. cbn [andb negb].
-    rewrite (with_min_la _ _ _ _ L). rewrite !orb_false_r.
-    split; [reflexivity|]. split; [reflexivity|]. shp.
-  - destruct (bounded (ts_node st)) eqn:B; cbn [negb andb]; [|reflexivity].
-    destruct (bounded_la _ B) as (mn & mx & L). rewrite L.
-    specialize (Hmax m eq_refl eq_refl). unfold max_of in *. rewrite L in *.
-    destruct (mx =? m) eqn:E2.
-    2:{ cbn. rewrite andb_false_r. cbn. rewrite orb_true_r. reflexivity. }
-    destruct (ts_max st); [|discriminate]. cbn [andb negb].
-    rewrite (with_max_la _ _ _ _ L). rewrite !orb_false_r.
+    rewrite (bad_max_spec _ m B).
+    destruct (max_written (ts_node st) && (max_of (ts_node st) =? m)) eqn:E2; cbn [negb].
+    2:{ cbn. rewrite orb_true_r. reflexivity. }
+    cbn [andb]. rewrite !orb_false_r.
     split; [reflexivity|]. split; [reflexivity|]. shp.
   - split; [reflexivity|]. apply step_rel_refl.
 Qed.
@@ -528,16 +518,15 @@ Proof.
 Qed.
 
 Lemma del_agree : forall dv st,
-  kind_of (dv_kind dv) = Some DKDelete -> in_scope dv = true ->
-  refused st dv = false -> known_delete_absent_bound st dv = false ->
+  kind_of (dv_kind dv) = Some DKDelete -> in_scope dv = true -> refused st dv = false ->
   match spec_edits DKDelete st (named_props dv) with
   | Some st' => apply_delete dv (ts_node st) = (ts_node st', false) /\ step_rel st st'
   | None => snd (apply_delete dv (ts_node st)) = true
   end.
 Proof.
-  intros dv st K S R KN.
+  intros dv st K S R.
   destruct (kind_delete_scope _ K S) as [HU HT].
-  unfold refused in R. rewrite K in R. unfold known_delete_absent_bound in KN. rewrite K in KN.
+  unfold refused in R. rewrite K in R.
   rewrite apply_delete_stages, named_props_groups.
   rewrite spec_edits_app, del_cfg_stage. rewrite spec_edits_app.
   pose proof (del_dflt_stage dv (with_node st (d_cfg dv (ts_node st)))) as HDf.
@@ -552,19 +541,8 @@ Proof.
     { rewrite shape_d_mand. rewrite <- (shape_d_cfg dv (ts_node st)).
       replace (ts_node st2) with (fst (d_dflt dv (d_cfg dv (ts_node st)))) by (rewrite HD1; reflexivity).
       apply shape_d_dflt. }
-    assert (LA : e_la (d_mand dv (ts_node st2)) = e_la (ts_node st)).
-    { rewrite la_d_mand. rewrite <- (la_d_cfg dv (ts_node st)).
-      replace (ts_node st2) with (fst (d_dflt dv (d_cfg dv (ts_node st)))) by (rewrite HD1; reflexivity).
-      apply la_d_dflt. }
     pose proof (del_bounds_stage dv (with_node st2 (d_mand dv (ts_node st2))) false HU HT) as HB.
-    cbn [ts_node with_node ts_min ts_max] in HB.
-    rewrite (shape_bounded _ _ SH) in HB. unfold min_of, max_of in HB. rewrite LA in HB.
-    fold (min_of (ts_node st)) in HB. fold (max_of (ts_node st)) in HB.
-    assert (F1 : ts_min st2 = ts_min st) by (rewrite HD2; reflexivity).
-    assert (F2 : ts_max st2 = ts_max st) by (rewrite HD2; reflexivity).
-    rewrite F1, F2 in HB.
-    specialize (HB ltac:(intros n E B; rewrite B, E in KN; cbn in KN; apply orb_false_iff in KN; apply KN)).
-    specialize (HB ltac:(intros n E B; rewrite B, E in KN; cbn in KN; apply orb_false_iff in KN; apply KN)).
+    cbn [ts_node with_node] in HB.
     destruct (spec_edits DKDelete (with_node st2 (d_mand dv (ts_node st2))) _) as [st4|].
     + destruct HB as [HB1 HB2]. split; [assumption|].
       eapply step_rel_trans; [|exact HB2]. split; cbn [ts_removed ts_node with_node].
@@ -936,9 +914,8 @@ Proof.
   { cbn. subst. rewrite andb_negb_l. auto. }
   cbn [spec_apply_all apply_deviates existsb claimed] in *.
   apply andb_true_iff in Hcl. destruct Hcl as [Hstep Hcl].
-  unfold step_claimed in Hstep. apply andb_true_iff in Hstep. destruct Hstep as [Hstep Hkn].
-  apply andb_true_iff in Hstep. destruct Hstep as [Hscope Href].
-  apply negb_true_iff in Hkn. apply negb_true_iff in Href.
+  unfold step_claimed in Hstep. apply andb_true_iff in Hstep. destruct Hstep as [Hscope Href].
+  apply negb_true_iff in Href.
   rewrite deviate_err_spec.
   unfold spec_deviate in *.
   pose proof (kind_of_spec (dv_kind dv)) as K.
@@ -973,7 +950,7 @@ Proof.
       rewrite orb_true_r. apply apply_deviates_err.
   - (* delete *)
     destruct K as (K1 & K2 & K3 & K4). rewrite K1, K2, K3, K4. cbn [orb]. subst cur.
-    pose proof (del_agree dv st KO Hscope Href Hkn) as A.
+    pose proof (del_agree dv st KO Hscope Href) as A.
     destruct (spec_edits DKDelete st (named_props dv)) as [st1|] eqn:E.
     + destruct A as [A1 [A2 A3]]. rewrite A1, orb_false_r.
       specialize (IH F (ts_node st1) att err st1 eq_refl).
@@ -1009,7 +986,7 @@ Proof.
                     end) = true).
       { unfold present_at in HP. rewrite RV in HP. exact HP. }
       rewrite PR. cbn [negb]. rewrite orb_false_r.
-      set (st1 := {| ts_node := ts_node st; ts_min := ts_min st; ts_max := ts_max st; ts_removed := true |}) in *.
+      set (st1 := {| ts_node := ts_node st; ts_removed := true |}) in *.
       assert (RT : update_pos F (fst p, rev up)
                      (fun pe => match e_dir pe with Some d => set_dir pe (Some (remove n d)) | None => pe end)
                    = remove_target F p).
@@ -1039,11 +1016,11 @@ Proof.
   destruct (lookup n d); [reflexivity|discriminate].
 Qed.
 
-Theorem deviates_agree_top : forall ign F p cur dvs err hmin hmax,
+Theorem deviates_agree_top : forall ign F p cur dvs err,
   locate_pos F p = Some cur ->
   parent_nodup F p -> (ign = true -> snd p <> []) ->
-  claimed is_builtin ign (removable p) (init_state cur hmin hmax) dvs = true ->
-  match spec_apply_all is_builtin ign (removable p) (init_state cur hmin hmax) dvs with
+  claimed is_builtin ign (removable p) (init_state cur) dvs = true ->
+  match spec_apply_all is_builtin ign (removable p) (init_state cur) dvs with
   | Some st' =>
       apply_deviates ign F p cur true err dvs =
         (if ts_removed st' then remove_target F p else F, ts_node st', negb (ts_removed st'), err)
@@ -1051,8 +1028,8 @@ Theorem deviates_agree_top : forall ign F p cur dvs err hmin hmax,
   | None => snd (apply_deviates ign F p cur true err dvs) = true \/ existsb deviate_err dvs = true
   end.
 Proof.
-  intros ign F p cur dvs err hmin hmax L ND HR HC.
-  pose proof (deviates_agree ign p dvs F cur true err (init_state cur hmin hmax) eq_refl eq_refl HR) as A.
+  intros ign F p cur dvs err L ND HR HC.
+  pose proof (deviates_agree ign p dvs F cur true err (init_state cur) eq_refl eq_refl HR) as A.
   specialize (A ltac:(intros _ R; unfold attach_inv; cbn; split; [eapply located_present; eassumption|assumption])).
   specialize (A HC). unfold T1_result in A. cbn [init_state ts_removed negb andb] in A. exact A.
 Qed.
@@ -1078,46 +1055,46 @@ Proof.
 Qed.
 
 (* the hypotheses of the agreement, at the place the deviation is applied *)
-Definition deviation_claimed (SC : schema) (ign : bool) (F : forest) (m : module) (w : bool * bool)
+Definition deviation_claimed (SC : schema) (ign : bool) (F : forest) (m : module)
            (d : str * list deviate) : Prop :=
   match Find SC F m (m_name m, []) (fst d) with
   | (Some p, F1) =>
     match locate_pos F1 p with
     | Some cur => parent_nodup F1 p /\ (ign = true -> snd p <> []) /\
-                  claimed is_builtin ign (removable p) (init_state cur (fst w) (snd w)) (snd d) = true
+                  claimed is_builtin ign (removable p) (init_state cur) (snd d) = true
     | None => True
     end
   | (None, _) => True
   end.
 
-Theorem deviation_agree : forall SC ign F err m w d,
-  deviation_claimed SC ign F m w d ->
-  match spec_deviation SC ign F m w d with
+Theorem deviation_agree : forall SC ign F err m d,
+  deviation_claimed SC ign F m d ->
+  match spec_deviation SC ign F m d with
   | Some F' => apply_deviations SC ign F err m [d] = (F', err) /\ existsb deviate_err (snd d) = false
   | None => snd (apply_deviations SC ign F err m [d]) = true \/ existsb deviate_err (snd d) = true
   end.
 Proof.
-  intros SC ign F err m w [path dvs] HC. unfold deviation_claimed, spec_deviation in *.
+  intros SC ign F err m [path dvs] HC. unfold deviation_claimed, spec_deviation in *.
   cbn [fst snd apply_deviations] in *.
   destruct (Find SC F m (m_name m, []) path) as [[p|] F1]; [|left; reflexivity].
   destruct (locate_pos F1 p) as [cur|] eqn:L; [|left; reflexivity].
   destruct HC as (ND & HR & HC).
-  pose proof (deviates_agree_top ign F1 p cur dvs err (fst w) (snd w) L ND HR HC) as A.
-  destruct (spec_apply_all is_builtin ign (removable p) (init_state cur (fst w) (snd w)) dvs) as [st|].
+  pose proof (deviates_agree_top ign F1 p cur dvs err L ND HR HC) as A.
+  destruct (spec_apply_all is_builtin ign (removable p) (init_state cur) dvs) as [st|].
   - destruct A as [A1 A2]. rewrite A1. split; [|assumption].
     destruct (ts_removed st); reflexivity.
   - destruct A as [A|A]; [left|right; assumption].
     destruct (apply_deviates ign F1 p cur true err dvs) as [[[F2 c2] a2] e2]. cbn in *. subst. reflexivity.
 Qed.
 
-Fixpoint module_claimed (SC : schema) (ign : bool) (F : forest) (m : module) (ws : list (bool * bool))
+Fixpoint module_claimed (SC : schema) (ign : bool) (F : forest) (m : module)
          (devs : list (str * list deviate)) : Prop :=
   match devs with
   | [] => True
   | d :: rest =>
-    deviation_claimed SC ign F m (hd (true, true) ws) d /\
-    match spec_deviation SC ign F m (hd (true, true) ws) d with
-    | Some F' => module_claimed SC ign F' m (tl ws) rest
+    deviation_claimed SC ign F m d /\
+    match spec_deviation SC ign F m d with
+    | Some F' => module_claimed SC ign F' m rest
     | None => True
     end
   end.
@@ -1125,19 +1102,19 @@ Fixpoint module_claimed (SC : schema) (ign : bool) (F : forest) (m : module) (ws
 Definition any_deviate_err (devs : list (str * list deviate)) : bool :=
   existsb (fun d => existsb deviate_err (snd d)) devs.
 
-Theorem module_agree : forall SC ign m devs F err ws,
-  module_claimed SC ign F m ws devs ->
-  match spec_module SC ign F m ws devs with
+Theorem module_agree : forall SC ign m devs F err,
+  module_claimed SC ign F m devs ->
+  match spec_module SC ign F m devs with
   | Some F' => apply_deviations SC ign F err m devs = (F', err) /\ any_deviate_err devs = false
   | None => snd (apply_deviations SC ign F err m devs) = true \/ any_deviate_err devs = true
   end.
 Proof.
-  induction devs as [|d devs IH]; intros F err ws HC.
+  induction devs as [|d devs IH]; intros F err HC.
   { cbn. auto. }
   rewrite apply_deviations_cons. cbn [spec_module module_claimed any_deviate_err existsb] in *.
   destruct HC as [HC1 HC2].
-  pose proof (deviation_agree SC ign F err m (hd (true, true) ws) d HC1) as A.
-  destruct (spec_deviation SC ign F m (hd (true, true) ws) d) as [F'|].
+  pose proof (deviation_agree SC ign F err m d HC1) as A.
+  destruct (spec_deviation SC ign F m d) as [F'|].
   - destruct A as [A1 A2]. rewrite A1, A2. cbn [orb]. apply IH. assumption.
   - destruct A as [A|A].
     + left. destruct (apply_deviations SC ign F err m [d]) as [F' e']. cbn in A. subst e'.
@@ -1687,25 +1664,33 @@ Proof. intros. rewrite la_d_mand, la_d_dflt, la_d_cfg. reflexivity. Qed.
 Lemma bounded_d_stages : forall dv t, bounded (d_mand dv (fst (d_dflt dv (d_cfg dv t)))) = bounded t.
 Proof. intros. apply shape_bounded. rewrite shape_d_mand, shape_d_dflt, shape_d_cfg. reflexivity. Qed.
 
-(* deleting an element bound whose value is different *)
-Theorem delete_bound_different_errs : forall cur dv,
+(* deleting an element bound whose statement is absent or whose value is different *)
+Theorem delete_bound_absent_or_different_errs : forall cur dv,
   kind_of (dv_kind dv) = Some DKDelete ->
-  ((exists n, dv_min dv = Some n /\ min_of cur <> n) \/ (exists n, dv_max dv = Some n /\ max_of cur <> n)) ->
+  ((exists n, dv_min dv = Some n /\ (min_written cur = false \/ min_of cur <> n)) \/
+   (exists n, dv_max dv = Some n /\ (max_written cur = false \/ max_of cur <> n))) ->
   step_errs cur dv = true.
 Proof.
   intros cur dv K H. destruct (kind_delete_tests dv K) as (K1 & K2 & K3 & K4).
   unfold step_errs. rewrite K1, K2, K3, K4. cbn [orb]. rewrite apply_delete_stages.
   pose proof (la_m_mand_etc dv cur) as LA. pose proof (bounded_d_stages dv cur) as BD.
   destruct (d_dflt dv (d_cfg dv cur)) as [t2 e1]. cbn [fst] in *.
-  unfold d_bounds. fold (bounded (d_mand dv t2)). rewrite BD, LA.
+  unfold d_bounds. fold (bounded (d_mand dv t2)). rewrite BD.
   destruct (bounded cur) eqn:B.
   2:{ destruct H as [(n & E & _)|(n & E & _)]; rewrite E; destruct (dv_min dv); reflexivity. }
-  destruct (bounded_la _ B) as (mn & mx & L). unfold min_of, max_of in H. rewrite L in *. cbn [negb].
+  destruct (bounded_la _ B) as (mn & mx & hm & hx & L).
+  unfold min_of, max_of, min_written, max_written in H. rewrite L in H. cbn [negb].
   destruct H as [(n & E & NE)|(n & E & NE)]; rewrite E; cbn [semCheckMin].
-  - apply N.eqb_neq in NE. rewrite NE. cbn [negb]. destruct (dv_max dv); cbn; rewrite ?orb_true_r; reflexivity.
-  - apply N.eqb_neq in NE. destruct (dv_min dv).
-    + rewrite la_set_la. rewrite NE. cbn. rewrite !orb_true_r. reflexivity.
-    + rewrite NE. cbn. rewrite !orb_true_r. reflexivity.
+  - assert (X : bad_min (d_mand dv t2) n = true).
+    { unfold bad_min. rewrite LA, L. destruct NE as [NE|NE]; [subst hm; apply orb_true_r|].
+      apply N.eqb_neq in NE. rewrite NE. reflexivity. }
+    rewrite X. destruct (dv_max dv); cbn [snd]; rewrite ?orb_true_r; reflexivity.
+  - assert (X : bad_max (d_mand dv t2) n = true).
+    { unfold bad_max. rewrite LA, L. destruct NE as [NE|NE]; [subst hx; apply orb_true_r|].
+      apply N.eqb_neq in NE. rewrite NE. reflexivity. }
+    destruct (dv_min dv).
+    + destruct (max_after_min (d_mand dv t2) 0 false n) as (M1 & _). rewrite M1, X. cbn [snd]. apply orb_true_r.
+    + rewrite X. cbn [snd]. apply orb_true_r.
 Qed.
 
 (* element bounds on a node that is neither a list nor a leaf-list *)
@@ -2141,32 +2126,32 @@ Qed.
 
 (* ------------------------------------------------------------------ T1 for the whole pass, on forests that satisfy C04's invariant *)
 (* what remains of the hypotheses of the agreement once the tree invariant provides the distinct sibling names *)
-Definition job_claimed (SC : schema) (ign : bool) (F : forest) (j : job) (w : bool * bool) : Prop :=
+Definition job_claimed (SC : schema) (ign : bool) (F : forest) (j : job) : Prop :=
   match Find SC F (fst j) (m_name (fst j), []) (fst (snd j)) with
   | (Some p, F1) =>
     match locate_pos F1 p with
     | Some cur => (ign = true -> snd p <> []) /\
-                  claimed is_builtin ign (removable p) (init_state cur (fst w) (snd w)) (snd (snd j)) = true
+                  claimed is_builtin ign (removable p) (init_state cur) (snd (snd j)) = true
     | None => True
     end
   | (None, _) => True
   end.
 
-Fixpoint jobs_claimed (SC : schema) (ign : bool) (F : forest) (js : list job) (ws : list (bool * bool)) : Prop :=
+Fixpoint jobs_claimed (SC : schema) (ign : bool) (F : forest) (js : list job) : Prop :=
   match js with
   | [] => True
   | j :: rest =>
-    job_claimed SC ign F j (hd (true, true) ws) /\
-    match spec_deviation SC ign F (fst j) (hd (true, true) ws) (snd j) with
-    | Some F' => jobs_claimed SC ign F' rest (tl ws)
+    job_claimed SC ign F j /\
+    match spec_deviation SC ign F (fst j) (snd j) with
+    | Some F' => jobs_claimed SC ign F' rest
     | None => True
     end
   end.
 
-Lemma job_claimed_deviation : forall SC ign s F m d w,
-  C04.ForestInv s F -> job_claimed SC ign F (m, d) w -> deviation_claimed SC ign F m w d.
+Lemma job_claimed_deviation : forall SC ign s F m d,
+  C04.ForestInv s F -> job_claimed SC ign F (m, d) -> deviation_claimed SC ign F m d.
 Proof.
-  intros SC ign s F m d w HI HC. unfold job_claimed, deviation_claimed in *. cbn [fst snd] in *.
+  intros SC ign s F m d HI HC. unfold job_claimed, deviation_claimed in *. cbn [fst snd] in *.
   pose proof (TreeInvProofs.Find_inv SC s F m (m_name m, []) (fst d) HI) as HI1.
   destruct (Find SC F m (m_name m, []) (fst d)) as [[p|] F1]; [|exact I]. cbn [snd] in HI1.
   destruct (locate_pos F1 p); [|exact I]. destruct HC as [H1 H2].
@@ -2175,24 +2160,24 @@ Qed.
 
 Definition jobs_deviate_err (js : list job) : bool := existsb (fun j => existsb deviate_err (snd (snd j))) js.
 
-Theorem jobs_agree : forall SC ign s js F err ws,
-  C04.ForestInv s F -> jobs_claimed SC ign F js ws ->
-  match spec_pass SC ign F js ws with
+Theorem jobs_agree : forall SC ign s js F err,
+  C04.ForestInv s F -> jobs_claimed SC ign F js ->
+  match spec_pass SC ign F js with
   | Some F' => run_jobs SC ign (F, err) js = (F', err) /\ jobs_deviate_err js = false
   | None => snd (run_jobs SC ign (F, err) js) = true \/ jobs_deviate_err js = true
   end.
 Proof.
-  intros SC ign s. induction js as [|[m d] js IH]; intros F err ws HI HC.
+  intros SC ign s. induction js as [|[m d] js IH]; intros F err HI HC.
   { cbn. auto. }
   cbn [spec_pass jobs_claimed run_jobs fold_left jobs_deviate_err existsb fst snd] in *.
   destruct HC as [HC1 HC2].
-  pose proof (deviation_agree SC ign F err m (hd (true, true) ws) d (job_claimed_deviation _ _ _ _ _ _ _ HI HC1)) as A.
+  pose proof (deviation_agree SC ign F err m d (job_claimed_deviation _ _ _ _ _ _ HI HC1)) as A.
   pose proof (run_job_inv SC ign s (F, err) (m, d) HI) as HI'.
   fold (run_jobs SC ign (run_job SC ign (F, err) (m, d)) js).
   unfold run_job in *. cbn [fst snd] in *.
-  destruct (spec_deviation SC ign F m (hd (true, true) ws) d) as [F'|].
+  destruct (spec_deviation SC ign F m d) as [F'|].
   - destruct A as [A1 A2]. rewrite A1 in *. rewrite A2. cbn [orb fst] in *.
-    apply (IH F' err (tl ws)); assumption.
+    apply (IH F' err); assumption.
   - destruct A as [A|A].
     + left. destruct (apply_deviations SC ign F err m [d]) as [F' e']. cbn in A. subst e'.
       apply run_jobs_err.
@@ -2215,14 +2200,14 @@ Qed.
 
 (* T1 at the level of Process: with the forest before the pass clean, Process returns what the reference pass
    returns -- no hypothesis on sibling names or defaults any more *)
-Theorem Process_agrees : forall SC ic ign order F3 ws,
+Theorem Process_agrees : forall SC ic ign order F3,
   pre_dev SC ic order = Some (F3, false) ->
-  jobs_claimed SC ign F3 (jobs SC order) ws ->
-  Process SC ic ign order = match spec_pass SC ign F3 (jobs SC order) ws with Some F' => ROk F' | None => RErr end.
+  jobs_claimed SC ign F3 (jobs SC order) ->
+  Process SC ic ign order = match spec_pass SC ign F3 (jobs SC order) with Some F' => ROk F' | None => RErr end.
 Proof.
-  intros SC ic ign order F3 ws HP HC.
-  pose proof (jobs_agree SC ign false (jobs SC order) F3 false ws (pre_dev_inv _ _ _ _ _ HP) HC) as A.
-  destruct (spec_pass SC ign F3 (jobs SC order) ws) as [F'|].
+  intros SC ic ign order F3 HP HC.
+  pose proof (jobs_agree SC ign false (jobs SC order) F3 false (pre_dev_inv _ _ _ _ _ HP) HC) as A.
+  destruct (spec_pass SC ign F3 (jobs SC order)) as [F'|].
   - destruct A as [A _]. rewrite Process_split, HP, dev_pass_jobs, A. reflexivity.
   - destruct A as [A|A].
     + rewrite Process_split, HP, dev_pass_jobs.
@@ -2283,13 +2268,13 @@ Qed.
 
 (* ... and T1 at that level: with the undeviated result F3 at hand, Process returns what the reference pass makes
    of F3 *)
-Theorem Process_agrees_without : forall SC ic ign order F3 ws,
+Theorem Process_agrees_without : forall SC ic ign order F3,
   existsb derr SC = false ->
   Process (strip_devs SC) ic ign order = ROk F3 ->
-  jobs_claimed SC ign F3 (jobs SC order) ws ->
-  Process SC ic ign order = match spec_pass SC ign F3 (jobs SC order) ws with Some F' => ROk F' | None => RErr end.
+  jobs_claimed SC ign F3 (jobs SC order) ->
+  Process SC ic ign order = match spec_pass SC ign F3 (jobs SC order) with Some F' => ROk F' | None => RErr end.
 Proof.
-  intros SC ic ign order F3 ws HD HS HC. rewrite (Process_strip SC ic ign order HD) in HS.
+  intros SC ic ign order F3 HD HS HC. rewrite (Process_strip SC ic ign order HD) in HS.
   destruct (pre_dev SC ic order) as [[F e]|] eqn:HP; [|discriminate].
   destruct e; [discriminate|]. inversion HS; subst F.
   apply Process_agrees; assumption.
